@@ -234,7 +234,7 @@ func (r *RecState) Reset(p string) (string, error) {
 func (r *RecState) SaveOffset(o uint64) error {
 	bz := make([]byte, 8)
 	binary.LittleEndian.PutUint64(bz, o)
-	who := r.pass("saveoffset", r.offKey(), bz)
+	who := r.pass("saveoffset", fmt.Sprint(o), bz)
 	err := r.Inner.SaveOffset(o)
 	if err == nil {
 		r.mu.Lock()
